@@ -38,7 +38,7 @@ META = {
     "design_ref": "DESIGN.md §3 C05",
     "engines": ["crash", "refmodel", "storage_exec", "histgen"],
 }
-REQUIRED = ("short_writes_by_the_os_without_death", "short_writes_at_a_4096_block_boundary", "crash_points_executed", "crash_points_reached", "inflight_applied", "inflight_absent", "continuation_writes_verified", "crashes_holding_the_lock", "short_writes",
+REQUIRED = ("first_open_crash_points", "short_writes_by_the_os_without_death", "short_writes_at_a_4096_block_boundary", "crash_points_executed", "crash_points_reached", "inflight_applied", "inflight_absent", "continuation_writes_verified", "crashes_holding_the_lock", "short_writes",
             "kills_at_pwrite64")
 SHARDS = {"quick": 14, "thorough": 16}
 WATCHDOG_S = {"quick": 1500, "thorough": 6 * 3600}
@@ -336,6 +336,75 @@ def plan_points(ctx: Ctx, rng, steps: list) -> list[tuple]:
             pts += [(k, "fsize", c) for c in sorted({1, size // 2, size - 1}) if 0 < c < size]
     return pts
 
+INIT_CHILD = r"""
+import json, os, sys, warnings
+warnings.simplefilter("ignore")
+sys.path.insert(0, {root!r})
+if os.environ.get("VERIF_REPO"): sys.path.insert(0, os.environ["VERIF_REPO"])
+import sqlalchemy
+from sqlalchemy.engine import Engine
+at = int(sys.argv[2]); n = [0]
+def step(name):
+    k = n[0]; n[0] += 1
+    if k == at:
+        os._exit(137)
+@sqlalchemy.event.listens_for(Engine, "before_cursor_execute")
+def _b(conn, cursor, statement, parameters, context, executemany):
+    head = statement.strip().split(None, 1)[0].upper()
+    if head not in ("SELECT", "PRAGMA"):
+        step("sql:" + head)
+@sqlalchemy.event.listens_for(Engine, "commit")
+def _c(conn):
+    step("sql:COMMIT")
+import optuna
+optuna.logging.set_verbosity(50)
+optuna.storages.RDBStorage(sys.argv[1])
+print("STEPS", n[0])
+os._exit(0)
+"""
+
+
+def init_crash_round(ctx: Ctx) -> None:
+    """A worker dies at every SQL statement / commit boundary of the FIRST opening of a brand-new SQLite database (schema creation
+    and version stamping); afterwards a fresh worker must be able to open the database and use it."""
+    import subprocess
+    import sys
+
+    import optuna
+    from optuna.study import StudyDirection
+    from vf.common import ROOT
+
+    k = 0
+    while True:
+        d = mktemp_dir("vf-c05i-")
+        url = f"sqlite:///{d}/new.sqlite3"
+        p = subprocess.run([sys.executable, "-W", "ignore", "-c", INIT_CHILD.format(root=ROOT), url, str(k)], cwd=ROOT, env=dict(os.environ, PYTHONHASHSEED="0"),
+                           capture_output=True, text=True, timeout=300)
+        if p.returncode not in (0, 137):
+            ctx.inconclusive_because(f"C05 first-open child failed rc={p.returncode}: {p.stderr[-300:]}")
+            return
+        ctx.count("first_open_crash_points")
+        case = {"flavour": "sqlite", "driver": "crash_during_first_open", "crash_before_sql_step": k, "seed": ctx.seed, "script": 0, "crash_at_step": k, "phase": "first_open",
+                "cut_after_bytes": None, "primitive": "sql"}
+        ctx.case(case, p.returncode == 137)
+        facts = {"flavour": "sqlite", "primitive": "sql", "phase": "first_open", "crashed_holding_lock": False, "torn_record": False}
+        try:
+            st = optuna.storages.RDBStorage(url)
+            sid = st.create_new_study([StudyDirection.MINIMIZE], "after-crash")
+            tid = st.create_new_trial(sid)
+            st2 = optuna.storages.RDBStorage(url)
+            ok = [t._trial_id for t in st2.get_all_trials(sid)] == [tid] and st2.get_study_id_from_name("after-crash") == sid
+            for s_ in (st, st2):
+                s_.remove_session()
+                s_.engine.dispose()
+            if not ok:
+                ctx.violation({**facts, "kind": "continuation_write_not_visible", "reader": "fresh"}, "a study/trial created after the crashed first open is not visible to a fresh opener", case)
+        except Exception as e:  # noqa: BLE001
+            ctx.violation({**facts, "kind": "fresh_open_raised", "exc": type(e).__name__}, f"after a worker died at SQL step {k} of the first open: {type(e).__name__}: {str(e)[:200]}", case)
+        if p.returncode == 0:
+            return
+        k += 1
+
 
 def run(ctx: Ctx) -> None:
     ctx.level = "fault_enumeration"
@@ -433,10 +502,15 @@ def run(ctx: Ctx) -> None:
                 sc.close()
             n += step
     ctx.extra["exhaustive"] = bool(ctx.thorough())
+    if ctx.shard[0] == 1 or ctx.shard[1] == 1:
+        init_crash_round(ctx)
 
 
 def replay(ctx: Ctx, w: dict) -> None:
     c = w["case"]
+    if c.get("driver") == "crash_during_first_open":
+        init_crash_round(ctx)
+        return
     kind = c["flavour"]
     rng = ctx.rng("script", kind, int(c["script"]))
     sc = Scene(kind, 0)
